@@ -227,12 +227,13 @@ static void op_fullcase(const V &a, V &r) {
 static void op_gatecase(const V &a, V &r) {
     need_keys(a);
     const TFheGateBootstrappingParameterSet *P = cur.params; const int n = P->in_out_params->n;
-    const ll *v = a.data() + SPECN; int g = v[0]; v++;
+    const ll *v = a.data() + SPECN; int g = v[0] % 100, alias = v[0] / 100; v++;      // alias 1..3: the result object IS input a / b / c
     LweSample *in = new_gate_bootstrapping_ciphertext_array(4, P);
     for (int q = 0; q < 3; q++) { for (int i = 0; i < n; i++) in[q].a[i] = (int32_t) v[(size_t) q * (n + 1) + i]; in[q].b = (int32_t) v[(size_t) q * (n + 1) + n]; }
-    apply_gate(g, &in[3], &in[0], &in[1], &in[2], (int) v[n], &cur.sk->cloud);
-    r.push_back(lwePhase(&in[3], cur.sk->lwe_key)); r.push_back(bootsSymDecrypt(&in[3], cur.sk));
-    dump_lwe(&in[3], n, r);
+    LweSample *res = alias ? &in[alias - 1] : &in[3];
+    apply_gate(g, res, &in[0], &in[1], &in[2], (int) v[n], &cur.sk->cloud);
+    r.push_back(lwePhase(res, cur.sk->lwe_key)); r.push_back(bootsSymDecrypt(res, cur.sk));
+    dump_lwe(res, n, r);
     delete_gate_bootstrapping_ciphertext_array(4, in);
 }
 // encdec spec nbits bits... -> for each: phase of the fresh encryption, decrypted bit
